@@ -8,8 +8,8 @@
    verdict is exactly (supplied tag = tag of these inputs). *)
 EXTENDS AEAD, Json, IOUtils
 Rec == ndJsonDeserialize(IOEnv.TRACE)
-VARIABLES hi, l, st, ok
-vars == <<hi, l, st, ok>>
+VARIABLES hi, l, st, ok, res      \* res: the specification's answer for the event just consumed (evaluated once per step)
+vars == <<hi, l, st, ok, res>>
 Has(r, f) == f \in DOMAIN r
 V(b) == [k |-> "v", v |-> b]
 N == [k |-> "n", v |-> <<>>]
@@ -55,15 +55,15 @@ ApplyOne(h, s, e) ==
                       IN [st |-> [s EXCEPT ![x].phase = "used"], out |-> V(IF r[2] THEN <<1>> \o r[1] ELSE <<0>>)]
 
 Apply(h, s, e) == IF h.cls = "aead" THEN ApplyInc(h, s, e) ELSE ApplyOne(h, s, e)
-Init == hi \in 1..Len(Rec) /\ l = 1 /\ st = Fresh(Rec[hi]) /\ ok = TRUE
+Init == hi \in 1..Len(Rec) /\ l = 1 /\ st = Fresh(Rec[hi]) /\ ok = TRUE /\ res = <<>>
 Step == /\ ok /\ l <= Len(Rec[hi].ev)
+        /\ res' = Apply(Rec[hi], st, Rec[hi].ev[l])
         /\ LET h == Rec[hi]
                e == h.ev[l]
-               r == Apply(h, st, e)
-               good == e.out.k = r.out.k /\ e.out.v = r.out.v
-           IN /\ st' = IF good THEN r.st ELSE st
+               good == e.out.k = res'.out.k /\ e.out.v = res'.out.v
+           IN /\ st' = IF good THEN res'.st ELSE st
               /\ ok' = good
-              /\ IF good THEN TRUE ELSE PrintT(ToJson(<<"BAD", h.id, l, r.out, e.out>>))
+              /\ IF good THEN TRUE ELSE PrintT(ToJson(<<"BAD", h.id, l, res'.out, e.out>>))
               /\ IF good /\ l = Len(h.ev) THEN PrintT(ToJson(<<"DONE", h.id, l>>)) ELSE TRUE
         /\ l' = l + 1 /\ UNCHANGED hi
 Spec == Init /\ [][Step]_vars
